@@ -53,6 +53,18 @@ Qed.
 Lemma remove1_head x l : remove1 x (x :: l) = Some l.
 Proof. cbn [remove1]. rewrite same_rect_refl. reflexivity. Qed.
 
+(* the multiset comparison of the correspondence *)
+Lemma perm_rects_sound a : forall b, perm_rects a b = true -> Permutation a b.
+Proof.
+  induction a as [|x a IH]; intros b H; cbn [perm_rects] in H.
+  - destruct b; [constructor | discriminate].
+  - destruct (remove1 x b) as [b'|] eqn:R; [|discriminate].
+    apply remove1_perm in R. apply Permutation_sym in R.
+    eapply Permutation_trans; [|exact R]. constructor. apply IH. exact H.
+Qed.
+Lemma perm_rects_refl a : perm_rects a a = true.
+Proof. induction a as [|x a IH]; cbn [perm_rects]; [reflexivity|]. rewrite remove1_head. exact IH. Qed.
+
 (* ---------------- the checker, unfolded ---------------- *)
 Lemma tree_ok_cases fuel p g k : tree_ok fuel p g k = true ->
   (exists g', remove1 p g = Some g' /\ k g' = true) \/
